@@ -23,7 +23,7 @@ CLAIMED = {
          "Trusts the tokenizer/predicate and the stack line model in c07_test.go, apparmor_parser 3.0.8 for exec language equality; stacked bodies in the line model hold no directives of their own (directives inside stacked profiles are covered by the leftovers sweep on the real systemd profiles).",
          "DESIGN.md §2 C07"),
  "C06": ("differential against the reference parser: compiled attachment automata of '@{exec_path}' vs. the resolved literal (product walk with shortest witness), enumerated over the shipped profiles x distributions and rapid-generated preambles",
-         "For real builds (5 distributions thorough; 2 distributions x 250 sampled profiles quick) every profile with a resolved @{exec_path} attachment is compared with the reference parser's own expansion: two stub profiles - the file's own preamble with the variable and with the literal header attachment - are compiled over upstream + built tunables and their attachment automata must be equivalent on all path names. Generated preambles (local variables, several values, appends, nested shipped tunables) go through the userspace builder in-process with the same oracle. The exec-directive half of the statement is decided by the exec stage shared with C07.",
+         "For real builds (5 distributions thorough; 2 distributions x all profiles quick) every profile with a resolved @{exec_path} attachment is compared with the reference parser's own expansion: two stub profiles - the file's own preamble with the variable and with the literal header attachment - are compiled over upstream + built tunables and their attachment automata must be equivalent on all path names. Generated preambles (local variables, several values, appends, nested shipped tunables) go through the userspace builder in-process with the same oracle. The exec-directive half of the statement is decided by the exec stage shared with C07.",
          "Trusts apparmor_parser 3.0.8, the blob/DFA reader (self-tested on every run) and the product walk; equivalence is over kernel path names (no NUL, no empty component). The built-in variable table drift (HOME, user_share_dirs, version, arch, opensuse multiarch) is a listed known finding: 11 shipped profiles by name, the opensuse class by its witness, and the corresponding variables are excluded from the generated preambles.",
          "DESIGN.md §2 C06"),
  "C08": ("exhaustive enumeration of the 30 name-relevant builds with the real binary, scanned by an independent reference-graph scanner (definitions vs. named uses), plus a complete source-side scan of directives and manifests",
